@@ -6,10 +6,10 @@ From Scalibr Require Import Lib.SortSearch Image.PathTree Image.Fill Image.Overl
   Image.Witnesses Image.Bounded.
 Import ListNotations.
 
-Lemma check_all_3x1_true : check_all_3x1 = true.
+Lemma check_all_3x1_true : forallb check_image layers3 = true.
 Proof. vm_compute. reflexivity. Qed.
 
-Lemma check_all_2x2_true : check_all_2x2 = true.
+Lemma check_all_2x2_true : forallb2 check_pair old_layers new_layers = true.
 Proof. vm_compute. reflexivity. Qed.
 
 Lemma check_image_D layers : check_image layers = true ->
@@ -20,6 +20,11 @@ Proof.
   - rewrite E in H1. exact H1.
   - rewrite E in H2. exact H2.
 Qed.
+
+Lemma check_pair_D l0 l1 : check_pair l0 l1 = true ->
+  (D cfg_default (img [l0; l1]) = true -> agree_everywhere cfg_default (img [l0; l1]) = true) /\
+  (D_weak cfg_default (img [l0; l1]) = true -> agree_weakly cfg_default (img [l0; l1]) = true).
+Proof. exact (check_image_D [l0; l1]). Qed.
 
 Lemma forallb2_spec {A B} (f : A -> B -> bool) la lb :
   forallb2 f la lb = true -> forall a b, In a la -> In b lb -> f a b = true.
@@ -35,18 +40,19 @@ Lemma bounded_2x2_lemma : forall l0 l1, In l0 old_layers -> In l1 new_layers ->
   (D cfg_default (img [l0; l1]) = true -> agree_everywhere cfg_default (img [l0; l1]) = true) /\
   (D_weak cfg_default (img [l0; l1]) = true -> agree_weakly cfg_default (img [l0; l1]) = true).
 Proof.
-  intros l0 l1 H0 H1. apply check_image_D.
-  exact (forallb2_spec check_pair old_layers new_layers check_all_2x2_true l0 l1 H0 H1).
+  intros l0 l1 H0 H1.
+  exact (check_pair_D l0 l1 (forallb2_spec check_pair old_layers new_layers check_all_2x2_true l0 l1 H0 H1)).
 Qed.
 
 Lemma bounded_3x1_lemma : forall ls, In ls layers3 ->
   (D cfg_default (img ls) = true -> agree_everywhere cfg_default (img ls) = true) /\
   (D_weak cfg_default (img ls) = true -> agree_weakly cfg_default (img ls) = true).
 Proof.
-  intros ls H0. apply check_image_D.
-  exact (forallb_spec check_image layers3 check_all_3x1_true ls H0).
+  intros ls H0.
+  exact (check_image_D ls (forallb_spec check_image layers3 check_all_3x1_true ls H0)).
 Qed.
 
-(* the enumeration is not vacuous *)
-Lemma bounded_counts : count_in_D layers3 = (729%nat, 5769%nat).
-Proof. vm_compute. reflexivity. Qed.
+(* the enumeration is not vacuous: images inside D / inside D_weak among the 3x1 family *)
+Lemma bounded_counts :
+  Nat.ltb 500 (fst (count_in_D layers3)) = true /\ Nat.ltb 5000 (snd (count_in_D layers3)) = true.
+Proof. split; vm_compute; reflexivity. Qed.
